@@ -49,6 +49,7 @@ pub const METHOD: Method = Method {
 
 impl Request {
     pub const _ERROR_UNABLE_TO_PARSE_METHOD_AND_REQUEST_URI_AND_HTTP_VERSION: &'static str = "Unable to parse method, request uri and http version";
+    pub const _ERROR_REQUEST_URI_IS_NOT_IN_ORIGIN_FORM: &'static str = "Request uri does not start with a path, query or fragment";
 
     pub fn get_header(&self, name: String) -> Option<&Header> {
         let header =  self.headers.iter().find(|x| x.name.to_lowercase() == name.to_lowercase());
@@ -108,6 +109,9 @@ impl Request {
     pub fn get_uri_query(&self) -> Result<Option<HashMap<String, String>>, String> {
         // it will return an error if unable to parse url
         // it will return None if there are no query params
+        if !self.is_request_uri_path_or_query_or_fragment() {
+            return Err(Request::_ERROR_REQUEST_URI_IS_NOT_IN_ORIGIN_FORM.to_string())
+        }
         // scheme and host required for the parse_url function
         let url_array = ["http://", "localhost/", &self.request_uri];
         let url = url_array.join(SYMBOL.empty_string);
@@ -124,7 +128,20 @@ impl Request {
         self.get_uri_path()
     }
 
+    // request uri is appended to a host to build an url, anything else than empty string, path,
+    // query or fragment at the beginning will be treated as part of the host or port
+    pub fn is_request_uri_path_or_query_or_fragment(&self) -> bool {
+        let is_empty = self.request_uri.len() == 0;
+        let is_path = self.request_uri.starts_with(SYMBOL.slash);
+        let is_query = self.request_uri.starts_with(SYMBOL.question_mark);
+        let is_fragment = self.request_uri.starts_with(SYMBOL.number_sign);
+        is_empty || is_path || is_query || is_fragment
+    }
+
     pub fn get_uri_path(&self) -> Result<String, String> {
+        if !self.is_request_uri_path_or_query_or_fragment() {
+            return Err(Request::_ERROR_REQUEST_URI_IS_NOT_IN_ORIGIN_FORM.to_string())
+        }
         // scheme and host required for the parse_url function
         let url_array = ["http://", "localhost", &self.request_uri];
         let url = url_array.join(SYMBOL.empty_string);
